@@ -55,6 +55,7 @@ class Run:
         self.histories = 0
         self.opcnt = collections.Counter()
         self.verdicts = []      # (trace_path, h, i, verdict)
+        self.aborted = []       # harness generators that stopped early (judged: what was recorded)
         self.samples = []
         self.distinct = set()
         self.nontrivial = 0
@@ -218,6 +219,10 @@ class Run:
             msg = out if len(out) <= 6000 else out[:2500] + "\n[...]\n" + out[-3000:]
             raise Infra("harness %s exited %d:\n%s" % (family, p.returncode, msg))
         st = json.load(open(stats))
+        if st.get("aborted"):
+            # the generator stopped on something the code returned; the events recorded so far are judged first
+            self.aborted.append("%s: %s" % (family, st["aborted"]))
+            log("exec %s: generator aborted (%s); judging what was recorded" % (family, st["aborted"]))
         log("exec %s: %d events in %d histories, %.1fs" % (family, st["events"], st["histories"], time.time() - t))
         for k, v in st["ops"].items():
             self.opcnt[k] += v
@@ -429,6 +434,8 @@ def finish(run, level="model_checking", rule="", assumptions=None, extra_cov=Non
     if infra:
         raise Infra("specification needed an environment fact the harness did not log: %s (event %s)" %
                     (infra[0]["v"], json.dumps(shorten(infra[0]["event"]))[:600]))
+    if getattr(run, "aborted", None) and not real:
+        raise Infra("harness generator aborted and nothing recorded before it was rejected: " + "; ".join(run.aborted))
     known = collections.OrderedDict()
     viol = []
     for v in run.verdicts:
